@@ -300,6 +300,12 @@ def run_case(case):
         add('headers', 'field names %r expected %r' % (names, header))
         return dict(nontrivial=False, violations=viol, cov=cov, counters=counters)
     grows = got.results[0]
+    if fam == 'pytypes' and rows:
+        # "a datatype matching their python type": every cell of a CSV file is text
+        for f_, col in zip(rd['schema']['fields'], zip(*rows)):
+            if all(c != '' for c in col[:1000]) and f_['type'] != 'string':
+                add('pytypes_type', 'INFER_PYTHON_TYPES declares field %r as %r, its cells are all text' % (f_['name'], f_['type']))
+                break
     # expected rows
     fobj = tableschema.Schema(rd['schema']).fields if fam == 'cast_schema' else None
     exp = []
